@@ -198,6 +198,8 @@ func c08DockerCheck(c C08DockerCase) (r evid.Result) {
 	}
 	r.Class(true, fmt.Sprintf("containers=%d", len(c.Ctrs)))
 	r.Class(c.Limit > 0 && c.Limit < n, "limit-cuts")
+	r.Class(n > 100, "more-than-100-matching")
+	r.Class(c.Limit <= 0, "limit<=0")
 	r.NonTrivial = len(c.Ctrs) >= 3 && c.Limit > 0 && c.Limit < n
 	const base = int64(1700000000e9)
 	data, err := dl.Eval(d, c.Query, dl.Params{Start: base - 3600e9, End: base + 3600e9, Step: 1e9, Limit: c.Limit})
@@ -257,9 +259,18 @@ func c08DockerGen(t *rapid.T) C08DockerCase {
 	const base = int64(1700000000e9)
 	n := rapid.SampledFrom([]int{1, 2, 3, 3, 4, 4, 5, 6, 8}).Draw(t, "containers")
 	span := rapid.SampledFrom([]int64{5, 20, 100}).Draw(t, "span")
+	// Results beyond the round numbers an API might take for a default (100, 1000 entries).
+	many := rapid.IntRange(0, 7).Draw(t, "many-records") == 0
+	if many {
+		n = rapid.IntRange(1, 3).Draw(t, "containers-many")
+		span = 2000
+	}
 	total := 0
 	for i := 0; i < n; i++ {
 		m := rapid.IntRange(0, 6).Draw(t, "records")
+		if many {
+			m = rapid.IntRange(30, 130).Draw(t, "records-many")
+		}
 		tss := make([]int64, m)
 		for j := range tss {
 			tss[j] = base + rapid.Int64Range(0, span).Draw(t, "ts")*1e6
@@ -278,6 +289,9 @@ func c08DockerGen(t *rapid.T) C08DockerCase {
 	}
 	c.Query = rapid.SampledFrom([]string{`{}`, `{} |= "#"`, `{} | keep container`, `{} | drop container_id | label_format name=container`}).Draw(t, "query")
 	cands := []int{-1, 0, 1, 2, 3, total / 2, total - 1, total, total + 1}
+	if many {
+		cands = []int{-1, 0, 0, -100, 99, 100, 101, total - 1, total, total + 1}
+	}
 	c.Limit = rapid.SampledFrom(cands).Draw(t, "limit")
 	return c
 }
